@@ -161,14 +161,17 @@ CHECKS = {
         design="4/C04",
     ),
     "C06": dict(
-        specs=["MetadataR.tla", "Metadata.tla", "MetadataIO.tla"],
+        specs=["MetadataR.tla", "Metadata.tla", "MetadataIO.tla", "C2Init.tla"],
         text="MetadataR gives the byte-exact layout (59 fixed bytes + info, size = 51 + |info|) and the PKCS#1 v1.5 fit arithmetic; "
         "Metadata.tla is the transport with symbolic RSA and fault actions (other key, flipped, random, truncated, wrong magic) "
         "and TLC checks that metadata comes out only for the matching key on an untouched blob, ValueError otherwise, and that the "
         "fit bound is sharp. TLC renders the expected plaintext for every field at its boundary values and for the info lengths "
         "around the limit of 1024/2048-bit keys; the harness encrypts with the library, decrypts by hand (pow + own unpadding) to "
         "compare the layout, decrypts with the library to compare field by field, feeds nine kinds of bad blobs, and has TLC "
-        "judge random full-width metadata and the key split of SHA-256.",
+        "judge random full-width metadata and the key split of SHA-256. C2Init.tla is the constructor of C2Http (where the session "
+        "keys enter the decoder) check by check over every class of aes_key / hmac_key / aes_rand / private key / trial / verify "
+        "arguments against the decision table; all 960 argument classes are replayed on the real constructor (outcome, effective "
+        "keys incl. the SHA-256 split, flags); the private-key mismatch ends in AssertionError, modelled as the code does it.",
         note="Trusted: TLC, MetadataR, the harness' manual RSA and hashlib. RSA/SHA numerics are not modelled in TLA+.",
         technique="TLA+ transport model with symbolic RSA (TLC); TLC-rendered layouts replayed; transports judged by TLC",
         design="4/C06",
